@@ -134,27 +134,29 @@ Proof. intros Hi H v p Hin. destruct (H v p Hin) as [H1 H2]. split; [apply Hi; e
 
 Lemma defs_okI_upd_fresh D Sc e x val : closedI D Sc -> ~ In x D -> defs_okI Sc e -> defs_okI Sc (upd e x val).
 Proof.
-  intros Hc Hx Hs v p Hin. destruct (Hc v p Hin) as [Hv Hu].
-  rewrite upd_other by (intros ->; contradiction). rewrite (Hs v p Hin).
+  intros Hc Hx Hs v p Hin Hp. destruct (Hc v p Hin) as [Hv Hu].
+  rewrite upd_other by (intros ->; contradiction). rewrite (Hs v p Hin Hp).
   apply (eval_pexpr_agree (eq x)).
   - intros y Hy. symmetry. apply upd_other. congruence.
   - intros u Hin2 Heq. subst u. apply Hx. apply Hu. exact Hin2.
 Qed.
 
-Lemma inv_after_op o D Sc e :
+Lemma inv_after_op o D Sc e h :
   wf_op D o = true -> defs_okI Sc e -> closedI D Sc ->
-  defs_okI (defs_top [o] ++ Sc) (fst (exec_op o e)) /\ closedI (push D o) (defs_top [o] ++ Sc).
+  defs_okI (defs_top [o] ++ Sc) (fst (exec_op o e h)) /\ closedI (push D o) (defs_top [o] ++ Sc).
 Proof.
   intros Hwf Hs Hc. destruct o as [d p|i a|iv lb ub st body].
   - cbn [wf_op] in Hwf. apply andb_true_iff in Hwf as [Hu Hd].
     apply negb_true_iff, memb_not_In in Hd.
     assert (Hup : forall u, In u (uses_p p) -> In u D) by (intros u Hin; eapply forallb_memb_In; eassumption).
     cbn [defs_top app push exec_op fst]. split.
-    + intros v q [Heq|Hin].
-      * inversion Heq; subst v q. rewrite upd_same. apply (eval_pexpr_agree (eq d)).
+    + intros v q [Heq|Hin] Hq.
+      * inversion Heq; subst v q. rewrite upd_same.
+        assert (Hev : eval_def d e h p = eval_pexpr e [] p) by (destruct p; try discriminate; reflexivity).
+        rewrite Hev. apply (eval_pexpr_agree (eq d)).
         -- intros y Hy. symmetry. apply upd_other. congruence.
         -- intros u Hin Heq2. subst u. apply Hd, Hup. exact Hin.
-      * apply (defs_okI_upd_fresh D Sc e d _ Hc Hd Hs). exact Hin.
+      * apply (defs_okI_upd_fresh D Sc e d _ Hc Hd Hs); assumption.
     + intros v q [Heq|Hin].
       * inversion Heq; subst v q. split; [left; reflexivity|intros u Hu2; right; apply Hup; exact Hu2].
       * destruct (Hc v q Hin) as [H1 H2]. split; [right; exact H1|intros u Hu2; right; apply H2; exact Hu2].
@@ -162,17 +164,17 @@ Proof.
   - rewrite env_For. cbn [defs_top app push]. split; assumption.
 Qed.
 
-Lemma inv_after_block b : forall D Sc e,
+Lemma inv_after_block b : forall D Sc e h,
   wf_block D b = true -> defs_okI Sc e -> closedI D Sc ->
-  defs_okI (defs_top b ++ Sc) (fst (exec_block b e)) /\ closedI (scope_after D b) (defs_top b ++ Sc).
+  defs_okI (defs_top b ++ Sc) (fst (exec_block b e h)) /\ closedI (scope_after D b) (defs_top b ++ Sc).
 Proof.
-  induction b as [|o b IH]; intros D Sc e Hwf Hs Hc; [split; assumption|].
+  induction b as [|o b IH]; intros D Sc e h Hwf Hs Hc; [split; assumption|].
   rewrite wf_block_cons in Hwf. apply andb_true_iff in Hwf as [H1 H2].
-  destruct (inv_after_op o D Sc e H1 Hs Hc) as [Hs1 Hc1].
-  destruct (IH _ _ _ H2 Hs1 Hc1) as [Hs2 Hc2].
+  destruct (inv_after_op o D Sc e h H1 Hs Hc) as [Hs1 Hc1].
+  destruct (IH _ _ _ (hpush (snd (exec_op o e h)) h) H2 Hs1 Hc1) as [Hs2 Hc2].
   rewrite env_cons. cbn [scope_after fold_left]. fold (scope_after (push D o) b).
   rewrite defs_top_cons. split.
-  - intros v p Hin. apply Hs2. rewrite !in_app_iff in *. tauto.
+  - intros v p Hin Hp. apply Hs2; [|exact Hp]. rewrite !in_app_iff in *. tauto.
   - intros v p Hin. apply Hc2. rewrite !in_app_iff in *. tauto.
 Qed.
 
@@ -181,28 +183,28 @@ Definition inner_defs (o : op) : list var :=
   match o with For iv _ _ _ body => iv :: alldefs body | _ => [] end.
 
 Definition rule_sound (f : scope -> op -> option (list op)) (fresh : var) : Prop :=
-  forall Sc D o ops e,
+  forall Sc D o ops e h,
     f Sc o = Some ops ->
     wf_op D o = true ->
     NoDup (alldefs_op o) -> (forall v, In v D -> ~ In v (alldefs_op o)) ->
     closedI D Sc ->
     defs_okI Sc e ->
     (forall v, In v (vars_op o) -> (v < fresh)%nat) ->
-    trace ops e = snd (exec_op o e) /\
-    exists F, agree F (fst (exec_block ops e)) (fst (exec_op o e)) /\
+    trace ops e h = snd (exec_op o e h) /\
+    exists F, agree F (fst (exec_block ops e h)) (fst (exec_op o e h)) /\
               forall v, F v -> (fresh <= v)%nat \/ In v (inner_defs o).
 
 Lemma change_step_sound fresh : rule_sound (fun Sc o => change_step Sc fresh o) fresh.
 Proof.
-  intros Sc D o ops e Hr _ _ _ _ Hs Hf.
-  destruct (change_step_trace Sc fresh o ops e Hr (defs_okI_scope_ok _ _ Hs) Hf) as [Ht Ha].
+  intros Sc D o ops e h Hr _ _ _ _ Hs Hf.
+  destruct (change_step_trace Sc fresh o ops e h Hr (defs_okI_scope_ok _ _ Hs) Hf) as [Ht Ha].
   split; [exact Ht|]. exists (fresh_from fresh). split; [exact Ha|]. intros v Hv. left. exact Hv.
 Qed.
 
 Lemma merge_sound fresh j : rule_sound (fun Sc o => merge_loops Sc fresh j o) fresh.
 Proof.
-  intros Sc D o ops e Hr Hwf Hnd Hdisj Hincl Hs Hf.
-  destruct (merge_trace Sc fresh j o ops e Hr (defs_okI_scope_ok _ _ Hs) Hf) as [Ht Ha].
+  intros Sc D o ops e h Hr Hwf Hnd Hdisj Hincl Hs Hf.
+  destruct (merge_trace Sc fresh j o ops e h Hr (defs_okI_scope_ok _ _ Hs) Hf) as [Ht Ha].
   { intros iv lb ub st body ->. cbn [alldefs_op] in Hnd, Hdisj.
     inversion Hnd as [|? ? Hn Hd]; subst. fold (alldefs body) in *. split; [|split].
     - apply defs_top_NoDup. exact Hd.
@@ -218,7 +220,7 @@ Qed.
 
 Lemma hoist_sound fresh j : rule_sound (fun Sc o => hoist Sc j o) fresh.
 Proof.
-  intros Sc D o ops e Hr Hwf Hnd Hdisj Hincl Hs Hf.
+  intros Sc D o ops e h Hr Hwf Hnd Hdisj Hincl Hs Hf.
   assert (Hside : hoist_side j o).
   { unfold hoist_side. unfold hoist in Hr.
     destruct o as [| |iv lb ub st body]; try exact I.
@@ -255,7 +257,7 @@ Proof.
       + intros ->. apply HivD. exact G.
       + intros ->. apply HdD. exact G.
       + intros Hin. apply defs_top_alldefs in Hin. apply (Hdisj _ G). right. apply in_or_app. left. exact Hin. }
-  destruct (hoist_trace Sc j o ops e Hr Hside) as [Ht Ha].
+  destruct (hoist_trace Sc j o ops e h Hr Hside) as [Ht Ha].
   split; [exact Ht|]. exists (hoisted_name j o). split; [exact Ha|].
   intros v Hv. right. unfold hoisted_name in Hv. unfold inner_defs.
   destruct o as [| |iv lb ub st body]; try contradiction.
@@ -288,20 +290,20 @@ Qed.
 
 (* the loop with the dim erased and its uses redirected to w computes the same trace as the original loop,
    provided w holds the value of the dim whenever the dim would have been evaluated *)
-Lemma move_dim_core fresh iv lb ub st pre d src idx post w e e0 :
+Lemma move_dim_core fresh iv lb ub st pre d src idx post w e e0 h :
   agree (fresh_from fresh) e0 e ->
   (forall v, In v (vars_op (For iv lb ub st (pre ++ Def d (PDim src idx) :: post))) -> (v < fresh)%nat) ->
   d <> w -> ~ In w (alldefs post) -> ~ In d (alldefs post) ->
-  (forall x, fst (exec_block pre (upd e0 iv x)) w = eval_pexpr (fst (exec_block pre (upd e iv x))) (PDim src idx)) ->
-  snd (exec_op (For iv lb ub st (pre ++ map (subst_op d w) post)) e0) =
-  snd (exec_op (For iv lb ub st (pre ++ Def d (PDim src idx) :: post)) e).
+  (forall x h', fst (exec_block pre (upd e0 iv x) h') w = eval_pexpr (fst (exec_block pre (upd e iv x) h')) [] (PDim src idx)) ->
+  snd (exec_op (For iv lb ub st (pre ++ map (subst_op d w) post)) e0 h) =
+  snd (exec_op (For iv lb ub st (pre ++ Def d (PDim src idx) :: post)) e h).
 Proof.
   intros Ha Hf Hdw Hw Hd Hval.
   assert (Hlt : forall v, In v [lb; ub; st] -> e0 v = e v).
   { intros v Hv. apply Ha. unfold fresh_from. assert ((v < fresh)%nat); [|lia]. apply Hf. cbn in *. tauto. }
   rewrite !exec_For. cbn [snd].
   rewrite (Hlt lb), (Hlt ub), (Hlt st) by (cbn; auto).
-  apply flat_map_ext. intros k. set (x := VInt (as_int (e lb) + k * as_int (e st))).
+  apply iter_hist_ext. intros k h1. set (x := VInt (as_int (e lb) + k * as_int (e st))).
   rewrite !trace_app, trace_Def.
   assert (Hbpre : forall v, In v (vars_of pre) -> ~ fresh_from fresh v).
   { intros v Hv. unfold fresh_from. assert ((v < fresh)%nat); [|lia]. apply Hf. cbn. do 4 right.
@@ -310,23 +312,24 @@ Proof.
   { intros v Hv. unfold fresh_from. assert ((v < fresh)%nat); [|lia]. apply Hf. cbn. do 4 right.
     fold (vars_of (pre ++ Def d (PDim src idx) :: post)). rewrite vars_of_app, vars_of_cons.
     apply in_or_app. right. apply in_or_app. right; exact Hv. }
-  destruct (exec_block_agree pre (fresh_from fresh) (upd e0 iv x) (upd e iv x)) as [Htpre Hag1];
+  destruct (exec_block_agree pre (fresh_from fresh) (upd e0 iv x) (upd e iv x) h1) as [Htpre Hag1];
     [apply agree_upd; exact Ha|exact Hbpre|].
   rewrite Htpre. f_equal.
-  set (ep0 := fst (exec_block pre (upd e0 iv x))) in *. set (ep := fst (exec_block pre (upd e iv x))) in *.
-  destruct (subst_block_ok d w post ep0 (upd ep0 d (ep0 w))) as [Hts _]; [|exact Hd|exact Hw|].
+  set (ep0 := fst (exec_block pre (upd e0 iv x) h1)) in *. set (ep := fst (exec_block pre (upd e iv x) h1)) in *.
+  set (h2 := hpush (trace pre (upd e iv x) h1) h1).
+  destruct (subst_block_ok d w post ep0 (upd ep0 d (ep0 w)) h2) as [Hts _]; [|exact Hd|exact Hw|].
   { split; [intros y Hy; symmetry; apply upd_other; exact Hy|apply upd_same]. }
   rewrite Hts. apply (exec_block_agree post (fresh_from fresh)); [|exact Hbpost].
-  unfold ep0 at 2. rewrite (Hval x). fold ep. apply agree_upd. exact Hag1.
+  unfold ep0 at 2. rewrite (Hval x h1). fold ep. cbn [eval_def eval_pexpr]. apply agree_upd. exact Hag1.
 Qed.
 
 Lemma move_dim_sound fresh j : rule_sound (fun Sc o => move_dim Sc fresh j o) fresh.
 Proof.
-  intros Sc D o ops e Hr Hwf Hnd Hdisj Hcl Hs Hf.
+  intros Sc D o ops e h Hr Hwf Hnd Hdisj Hcl Hs Hf.
   unfold move_dim in Hr.
   destruct o as [| |iv lb ub st body]; try discriminate.
   destruct (split_at j body) as [[[pre x] post]|] eqn:Esp; [|discriminate].
-  destruct x as [d p| |]; try discriminate. destruct p as [| | |src idx| |]; try discriminate.
+  destruct x as [d p| |]; try discriminate. destruct p as [| | |src idx| | |]; try discriminate.
   apply split_at_spec in Esp as [-> _].
   set (Sin := defs_top pre) in *.
   destruct (cst_of (Sin ++ Sc) idx) as [iz|] eqn:Eidx; [|discriminate].
@@ -362,18 +365,18 @@ Proof.
   { apply Hf. cbn. do 4 right. fold (vars_of (pre ++ Def d (PDim src idx) :: post)).
     rewrite vars_of_app, vars_of_cons. apply in_or_app. right. left. reflexivity. }
   (* the scope invariant at the position of the dim, in every iteration *)
-  assert (Hinv : forall x, defs_okI (Sin ++ Sc) (fst (exec_block pre (upd e iv x))) /\ closedI Dp (Sin ++ Sc)).
-  { intros x. apply inv_after_block; [exact Hwpre| |].
+  assert (Hinv : forall x h', defs_okI (Sin ++ Sc) (fst (exec_block pre (upd e iv x) h')) /\ closedI Dp (Sin ++ Sc)).
+  { intros x h'. apply inv_after_block; [exact Hwpre| |].
     - apply (defs_okI_upd_fresh D); assumption.
     - apply (closedI_mono D); [intros v Hv; right; exact Hv|exact Hcl]. }
-  assert (Hdimval : forall x r', resolve_dim 8 Sin Sc src iz = Some r' -> repl_safe r' = true ->
-            eval_pexpr (fst (exec_block pre (upd e iv x))) (PDim src idx) =
-            VInt (eval_repl (fst (exec_block pre (upd e iv x))) r')).
-  { intros x r' Hr' Hsafe. destruct (Hinv x) as [Hok _]. set (ep := fst (exec_block pre (upd e iv x))) in *.
+  assert (Hdimval : forall x h' r', resolve_dim 8 Sin Sc src iz = Some r' -> repl_safe r' = true ->
+            eval_pexpr (fst (exec_block pre (upd e iv x) h')) [] (PDim src idx) =
+            VInt (eval_repl (fst (exec_block pre (upd e iv x) h')) r')).
+  { intros x h' r' Hr' Hsafe. destruct (Hinv x h') as [Hok _]. set (ep := fst (exec_block pre (upd e iv x) h')) in *.
     cbn [eval_pexpr]. rewrite (defs_okI_scope_ok _ _ Hok _ _ Eidx). cbn [as_int].
     rewrite (move_dim_value 8 Sin Sc src iz r' ep Hr' (defs_okI_defs_ok _ _ Hok) Hsafe). reflexivity. }
-  assert (HframeD : forall x v, In v D -> fst (exec_block pre (upd e iv x)) v = e v).
-  { intros x v Hv. rewrite exec_block_frame by (apply HDpre; exact Hv).
+  assert (HframeD : forall x h' v, In v D -> fst (exec_block pre (upd e iv x) h') v = e v).
+  { intros x h' v Hv. rewrite exec_block_frame by (apply HDpre; exact Hv).
     apply upd_other. intros ->. contradiction. }
   destruct r as [z|v|s i|v c]; try discriminate.
   - (* static size: a new constant in front of the loop *)
@@ -382,17 +385,17 @@ Proof.
     assert (Ha0 : agree (fresh_from fresh) e0 e).
     { unfold e0. apply agree_upd_l; [apply agree_refl|unfold fresh_from; lia]. }
     split.
-    + rewrite trace_Def. cbn [eval_pexpr]. fold e0. rewrite trace_cons, trace_nil, app_nil_r.
+    + rewrite trace_Def. cbn [eval_def eval_pexpr]. fold e0. rewrite trace_cons, trace_nil, app_nil_r.
       apply (move_dim_core fresh); try assumption.
       * lia.
       * intros Hin. apply alldefs_vars_b in Hin.
         assert ((fresh < fresh)%nat); [|lia]. apply Hf. cbn. do 4 right.
         fold (vars_of (pre ++ Def d (PDim src idx) :: post)). rewrite vars_of_app, vars_of_cons.
         apply in_or_app. right. apply in_or_app. right. exact Hin.
-      * intros x. rewrite (Hdimval x _ Eres eq_refl). cbn [eval_repl].
+      * intros x h'. rewrite (Hdimval x h' _ Eres eq_refl). cbn [eval_repl].
         rewrite exec_block_frame by exact Hfrpre. rewrite upd_other by lia. unfold e0. apply upd_same.
     + exists (fresh_from fresh). split; [|intros v Hv; left; exact Hv].
-      rewrite !env_cons, env_For, env_Def. cbn [fst exec_block eval_pexpr]. rewrite env_For. exact Ha0.
+      rewrite !env_cons, env_For, env_Def. cbn [fst exec_block eval_def eval_pexpr]. exact Ha0.
   - (* an existing value that dominates the loop *)
     destruct (in_scope Sc v) eqn:Ev; [|discriminate]. inversion Hr; subst ops; clear Hr.
     assert (HvD : In v D) by (apply (closedI_dom _ _ _ Hcl), in_scope_In; exact Ev).
@@ -402,10 +405,10 @@ Proof.
       * apply agree_refl.
       * intros ->. contradiction.
       * apply HDpost. exact HvD.
-      * intros x. rewrite (Hdimval x _ Eres eq_refl). cbn [eval_repl].
-        destruct (Hinv x) as [Hok _]. set (ep := fst (exec_block pre (upd e iv x))) in *.
+      * intros x h'. rewrite (Hdimval x h' _ Eres eq_refl). cbn [eval_repl].
+        destruct (Hinv x h') as [Hok _]. set (ep := fst (exec_block pre (upd e iv x) h')) in *.
         destruct (resolve_rvar_kind 8 _ _ _ _ _ Eres) as [p [Hl [[c ->]|[s' [i' ->]]]]];
-          rewrite (defs_okI_defs_ok _ _ Hok _ _ Hl); reflexivity.
+          rewrite (defs_okI_defs_ok _ _ Hok _ _ Hl eq_refl); reflexivity.
     + exists (fun _ => False). split; [|intros v0 []].
       rewrite !env_cons, !env_For. cbn [fst exec_block]. apply agree_refl.
   - (* dim of a block argument: a new memref.dim in front of the loop *)
@@ -417,31 +420,31 @@ Proof.
     assert (HixD : In ix D) by (apply (closedI_dom _ _ _ Hcl), in_scope_In; exact Gix).
     pose proof (newdim_idx_cst 8 _ _ _ _ _ _ _ _ Eres Eidx Eix) as Hixc.
     assert (HsD : In s D).
-    { destruct (Hinv (VInt 0)) as [_ Hcl'].
+    { destruct (Hinv (VInt 0) []) as [_ Hcl'].
       destruct (resolve_newdim_src 8 Sin Sc src iz s i (fun v => In v Dp) Eres Hsrc) as [HsDp Hsnone].
       - intros v0 s' i' Hl. assert (Hin : In (v0, PDim s' i') (Sin ++ Sc)) by (apply in_or_app; left; apply lookup_In; exact Hl).
         destruct (Hcl' _ _ Hin) as [_ Hu]. apply Hu. left. reflexivity.
       - apply scope_after_In in HsDp as [[Hq|Hq]|Hq]; [congruence|exact Hq|].
         exfalso. destruct (in_lookup_some _ _ Hq) as [p Hp]. rewrite lookup_app in Hsnone. fold Sin in Hp.
         rewrite Hp in Hsnone. discriminate. }
-    set (e0 := upd e fresh (eval_pexpr e (PDim s ix))).
+    set (e0 := upd e fresh (eval_pexpr e h (PDim s ix))).
     assert (Ha0 : agree (fresh_from fresh) e0 e).
     { unfold e0. apply agree_upd_l; [apply agree_refl|unfold fresh_from; lia]. }
     split.
-    + rewrite trace_Def. fold e0. rewrite trace_cons, trace_nil, app_nil_r.
+    + rewrite trace_Def. cbn [eval_def]. fold e0. rewrite trace_cons, trace_nil, app_nil_r.
       apply (move_dim_core fresh); try assumption.
       * lia.
       * intros Hin. apply alldefs_vars_b in Hin.
         assert ((fresh < fresh)%nat); [|lia]. apply Hf. cbn. do 4 right.
         fold (vars_of (pre ++ Def d (PDim src idx) :: post)). rewrite vars_of_app, vars_of_cons.
         apply in_or_app. right. apply in_or_app. right. exact Hin.
-      * intros x. rewrite (Hdimval x _ Eres eq_refl). cbn [eval_repl].
+      * intros x h'. rewrite (Hdimval x h' _ Eres eq_refl). cbn [eval_repl].
         rewrite exec_block_frame by exact Hfrpre. rewrite upd_other by lia. unfold e0. rewrite upd_same.
-        destruct (Hinv x) as [Hok _].
-        cbn [eval_pexpr]. rewrite <- (HframeD x ix HixD), <- (HframeD x s HsD).
+        destruct (Hinv x h') as [Hok _].
+        cbn [eval_pexpr]. rewrite <- (HframeD x h' ix HixD), <- (HframeD x h' s HsD).
         rewrite (defs_okI_scope_ok _ _ Hok _ _ Hixc). reflexivity.
     + exists (fresh_from fresh). split; [|intros v Hv; left; exact Hv].
-      rewrite !env_cons, env_For, env_Def. cbn [fst exec_block]. rewrite env_For. exact Ha0.
+      rewrite !env_cons, env_For, env_Def. cbn [fst exec_block eval_def]. exact Ha0.
 Qed.
 
 Lemma apply_rule_sound r fresh : rule_sound (fun Sc o => apply_rule r Sc fresh o) fresh.
@@ -455,16 +458,16 @@ Qed.
 
 (* ------------------------------------------------------------------ the context lemma *)
 Lemma apply_at_trace f fresh : rule_sound f fresh ->
-  forall path D Sc b b' e,
+  forall path D Sc b b' e h,
     wf_block D b = true ->
     NoDup (alldefs b) -> (forall v, In v D -> ~ In v (alldefs b)) ->
     closedI D Sc ->
     defs_okI Sc e ->
     (forall v, In v (vars_of b) -> (v < fresh)%nat) ->
     apply_at f path Sc b = Some b' ->
-    trace b' e = trace b e.
+    trace b' e h = trace b e h.
 Proof.
-  intros Hsound. induction path as [|i path IH]; intros D Sc b b' e Hwf Hnd Hdisj Hincl Hs Hf Hr; [discriminate|].
+  intros Hsound. induction path as [|i path IH]; intros D Sc b b' e h Hwf Hnd Hdisj Hincl Hs Hf Hr; [discriminate|].
   cbn [apply_at] in Hr.
   destruct (split_at i b) as [[[pre o] post]|] eqn:Esp; [|discriminate].
   apply split_at_spec in Esp as [-> _].
@@ -473,10 +476,10 @@ Proof.
   rewrite alldefs_app, alldefs_cons in Hnd, Hdisj.
   set (D' := scope_after D pre) in *.
   set (Sc' := defs_top pre ++ Sc) in *.
-  set (ep := fst (exec_block pre e)).
+  set (ep := fst (exec_block pre e h)). set (hp := hpush (trace pre e h) h).
   assert (Hndpre : NoDup (map fst (defs_top pre))).
   { apply defs_top_NoDup. apply (NoDup_app_l _ _ Hnd). }
-  destruct (inv_after_block pre D Sc e Hwpre Hs Hincl) as [Hs' Hincl'].
+  destruct (inv_after_block pre D Sc e h Hwpre Hs Hincl) as [Hs' Hincl'].
   fold ep in Hs'. fold D' in Hincl'. fold Sc' in Hs', Hincl'.
   assert (Hndo : NoDup (alldefs_op o)).
   { apply NoDup_app_r in Hnd. apply (NoDup_app_l _ _ Hnd). }
@@ -491,9 +494,9 @@ Proof.
   destruct path as [|i2 path2].
   - (* the rule fires here *)
     destruct (f Sc' o) as [ops|] eqn:Ef; [|discriminate]. inversion Hr; subst b'; clear Hr.
-    destruct (Hsound Sc' D' o ops ep Ef Hwo Hndo) as [Ht [F [Ha HF]]]; try assumption.
+    destruct (Hsound Sc' D' o ops ep hp Ef Hwo Hndo) as [Ht [F [Ha HF]]]; try assumption.
     { intros v Hin H2. apply (Hdisj' v Hin). apply in_or_app. left. exact H2. }
-    rewrite !trace_app. f_equal. fold ep. rewrite trace_cons, Ht. f_equal.
+    rewrite !trace_app. f_equal. fold ep. fold hp. rewrite trace_cons, Ht. f_equal.
     apply (exec_block_agree post F); [exact Ha|].
     intros v Hin HFv. destruct (HF v HFv) as [Hge|Hinner].
     + specialize (Hfpost v Hin). lia.
@@ -512,8 +515,13 @@ Proof.
     destruct o as [| |iv lb ub st body]; try discriminate.
     destruct (apply_at f (i2 :: path2) Sc' body) as [body'|] eqn:Eb; [|discriminate].
     inversion Hr; subst b'; clear Hr.
-    rewrite !trace_app. f_equal. fold ep. rewrite !trace_cons, !exec_For. cbn [fst snd]. f_equal.
-    apply flat_map_ext. intros k.
+    rewrite !trace_app. f_equal. fold ep. fold hp. rewrite !trace_cons, !exec_For. cbn [fst snd].
+    assert (Hit : forall h0, iter_hist (fun k h1 => trace body' (upd ep iv (VInt (as_int (ep lb) + k * as_int (ep st)))) h1)
+                     (zrange (trip (as_int (ep lb)) (as_int (ep ub)) (as_int (ep st)))) h0 =
+                   iter_hist (fun k h1 => trace body (upd ep iv (VInt (as_int (ep lb) + k * as_int (ep st)))) h1)
+                     (zrange (trip (as_int (ep lb)) (as_int (ep ub)) (as_int (ep st)))) h0);
+      [|rewrite Hit; reflexivity].
+    apply iter_hist_ext. intros k h1.
     rewrite wf_op_For in Hwo. repeat (apply andb_true_iff in Hwo as [Hwo ?]).
     assert (HivD : ~ In iv D') by (apply memb_not_In; apply negb_true_iff; assumption).
     cbn [alldefs_op] in Hndo, Hdisj'. fold (alldefs body) in *.
@@ -539,14 +547,14 @@ Proof.
 Qed.
 
 (* Any rule, anywhere in a well-formed program, from any environment. *)
-Theorem rewrite_trace r path args b b' e :
+Theorem rewrite_trace r path args b b' e h :
   wf_prog args b = true ->
   rewrite r path b = Some b' ->
-  trace b' e = trace b e.
+  trace b' e h = trace b e h.
 Proof.
   intros Hwf Hr. unfold wf_prog in Hwf. apply andb_true_iff in Hwf as [Hw Hn]. apply nodupb_NoDup in Hn.
   unfold rewrite in Hr.
-  apply (apply_at_trace _ (S (maxvar b)) (apply_rule_sound r (S (maxvar b))) path args [] b b' e); try assumption.
+  apply (apply_at_trace _ (S (maxvar b)) (apply_rule_sound r (S (maxvar b))) path args [] b b' e h); try assumption.
   - apply (NoDup_app_r _ _ Hn).
   - intros v Hin. apply (NoDup_app_disj _ _ _ Hn Hin).
   - intros v p [].
@@ -567,13 +575,13 @@ Fixpoint rewrite_seq (args : list var) (steps : list (rule * list nat)) (b : lis
     else None
   end.
 
-Theorem rewrite_seq_trace steps : forall args b b' e,
+Theorem rewrite_seq_trace steps : forall args b b' e h,
   rewrite_seq args steps b = Some b' ->
-  trace b' e = trace b e.
+  trace b' e h = trace b e h.
 Proof.
-  induction steps as [|[r path] rest IH]; intros args b b' e H; cbn [rewrite_seq] in H.
+  induction steps as [|[r path] rest IH]; intros args b b' e h H; cbn [rewrite_seq] in H.
   - inversion H; reflexivity.
   - destruct (wf_prog args b) eqn:Hwf; [|discriminate].
     destruct (rewrite r path b) as [b1|] eqn:Hr; [|discriminate].
-    rewrite (IH _ _ _ e H). eapply rewrite_trace; eassumption.
+    rewrite (IH _ _ _ e h H). eapply rewrite_trace; eassumption.
 Qed.
